@@ -205,7 +205,9 @@ UpResult(j, s) ==
       u == Up(d, X, P, s.val)
   IN [job |-> j, k |-> "up", label |-> s.label, val |-> s.val, faults |-> u.faults, pval |-> u.val,
       bytes |-> EncodeType(d, X, s.val).bytes,
-      pbytes |-> IF u.faults = {} THEN EncodeType(d, P, u.val).bytes ELSE <<>>]
+      pbytes |-> IF u.faults = {} THEN EncodeType(d, P, u.val).bytes ELSE <<>>,
+      rt |-> LET e == EncodeType(d, X, s.val) IN
+             e.faults = {} /\ DecodeFull(d, X, e.bytes).faults = {} /\ DecodeFull(d, X, e.bytes).val = s.val]
 
 PyParseResult(j, s) ==
   LET r == PyParse(D(j), T(j), s.bytes)
@@ -293,11 +295,15 @@ UpDownInv ==
   stim.k = "up" =>
     LET d == D(job)  P == Jobs[job].anc  X == T(job)
         u == Up(d, X, P, stim.val)
+        e == EncodeType(d, X, stim.val)
+        (* the way back is only demanded where the reference itself round-trips the child value (not, e.g., for a    *)
+        (* padded array without size or count whose padding is no multiple of the element size)                     *)
+        rt == e.faults = {} /\ DecodeFull(d, X, e.bytes).faults = {} /\ DecodeFull(d, X, e.bytes).val = stim.val
     IN u.faults = {} =>
          /\ EncodeType(d, P, u.val).faults = {}
-         /\ EncodeType(d, P, u.val).bytes = EncodeType(d, X, stim.val).bytes
-         /\ Down(d, P, X, u.val).faults = {}
-         /\ Down(d, P, X, u.val).val = stim.val
+         /\ EncodeType(d, P, u.val).bytes = e.bytes
+         /\ rt => /\ Down(d, P, X, u.val).faults = {}
+                  /\ Down(d, P, X, u.val).val = stim.val
 
 SpecializeInv ==
   stim.k = "spec" =>
